@@ -71,5 +71,10 @@ class SafePipeline(Pipeline):
     async def execute(self, raise_on_error=False):
         try:
             await super().execute(raise_on_error)
-        except RedisConnectionError:
+        except (
+            RedisConnectionError,
+            socket.gaierror,
+            OSError,
+            asyncio.TimeoutError,
+        ):  # the same failures the single commands suppress
             logger.error("redis: can not execute pipeline", exc_info=True)
